@@ -1,4 +1,5 @@
 import Driver.Common
+import LalModel.Model.RtspIn
 import LalModel.Model.GopRing
 import LalModel.Proof.GopRing
 import LalModel.Model.Group
@@ -239,6 +240,24 @@ def handleC01 : Handler := fun comp a impl =>
     let c := parseCfg cfg
     let s := run c es
     some { model := showRun s es, verdict := oracle c es impl }
+  | "c02.boundary", [codec, body] =>
+    let b := hex! body
+    let m := if codec == "avc" then RtspIn.avcBoundaryOfBody b else RtspIn.hevcBoundaryOfBody b
+    let model := match m with | .ok true => "1" | .ok false => "0" | .error _ => "panic"
+    -- the property: a waiting consumer is started only at a packet that BEGINS a key picture or a parameter set (a
+    -- single such NAL unit, an aggregation whose first unit is one, or the FIRST fragment of one), and at every such packet
+    let byteAt (i : Nat) : Nat := (b.getD i 0).toNat
+    let spec : Bool :=
+      if b.isEmpty then false else
+      if codec == "avc" then
+        let key (t : Nat) : Bool := t == 5 || t == 7 || t == 8
+        let t := byteAt 0 % 32
+        key t || (t == 24 && b.length > 3 && key (byteAt 3 % 32)) || (t == 28 && b.length > 1 && key (byteAt 1 % 32) && byteAt 1 ≥ 128)
+      else
+        let key (t : Nat) : Bool := t == 32 || t == 33 || t == 34 || (16 ≤ t && t ≤ 23)
+        let t := byteAt 0 / 2 % 64
+        key t || (t == 49 && b.length > 2 && key (byteAt 2 % 64) && byteAt 2 ≥ 128)
+    some { model := model, verdict := if impl == (if spec then "1" else "0") then "ok" else "bad:key-frame-gate-opens-at-the-wrong-packet" }
   | "gopts.run", [gopNum, cap, evs] =>
     let n := nat! gopNum; let c := nat! cap
     let es := (splitOnChar evs ',').map (splitOnChar · ':')
